@@ -1255,6 +1255,10 @@ def fixed_cases():
          "diverging try block, int catch block: the value is an int"),
         ("try-never-catch-value-misuse", "fn risky(n: int) -> int { n }\nfn f(n: int) -> int { let v = try { return risky(n); } catch _e { 0 - 1 }; let w: str = v; println(w); v }\nfn main() { println(f(1)); }\n", True,
          "the int of the catch block used as a str"),
+        # every literal of a multi-literal match arm has the type of the control expression
+        ("match-arm-second-literal", 'fn main() { let x = 2; println(match x { 1 | "a" => 10, _ => 20 }); }\n', True, "second literal of an arm of another type"),
+        ("match-arm-third-literal", "fn main() { let x = 2; println(match x { 1 | 2 | true => 10, _ => 20 }); }\n", True, "third literal of an arm of another type"),
+        ("match-arm-multi-ok", "fn main() { let x = 2; println(match x { 1 | 2 | 3 => 10, _ => 20 }); }\n", False, "several literals of the control type"),
         # the identifier of a catch block lives in the catch block only
         ("catch-ident-after", 'fn main() { try { throw("x"); } catch e { println(e.message); } println(e.message); }\n', True, "catch identifier used after the try expression"),
         ("catch-ident-after-fn", 'fn f() -> str { let r = try { "a" } catch err { err.message }; err.message }\nfn main() { println(f()); }\n', True, "catch identifier used after the try expression (function tail)"),
